@@ -179,8 +179,28 @@ class _FilesystemDataSource(DataSource):
         src_key: VersionedDataSourceKey,
         target_key: VersionedDataSourceKey,
     ):
-        # This data source does not perform reference counting
-        pass
+        # This data source does not perform reference counting, but an object that is only
+        # present in another store has to be brought over: whatever refers to target_key is
+        # going to look for it here.
+        if src_data_source is self or self.exists_versioned(target_key):
+            return
+        target_path = self._get_path_versioned(target_key)
+        os.makedirs(str(target_path.parent), exist_ok=True)
+        # The name of the target is given, so a copy that is cut short must never be found
+        # under it: write beside it and move the complete object into place.
+        scratch_path = target_path.with_name(
+            "{}.{}.incoming".format(target_path.name, uuid4())
+        )
+        log.debug("Copying {} from {} -> {}".format(src_key, src_data_source, target_key))
+        try:
+            with src_data_source.input_versioned(src_key) as src, scratch_path.open(
+                mode="wb"
+            ) as f:
+                shutil.copyfileobj(src, f)
+            os.replace(str(scratch_path), str(target_path))
+        finally:
+            if scratch_path.exists():
+                os.remove(str(scratch_path))
 
     def output_metadata(
         self, content_key: VersionedDataSourceKey, metadata_key: str, value: bytes
